@@ -212,6 +212,20 @@ func (u *upgA) chainRule(rule string, guards []string, extras bool) {
 			statusBad[failed] = "refusal replies with a status that is not an HTTP error"
 			return
 		}
+		// precedence of the 426 reply: a request refused for its method, version, key or origin has passed the
+		// Upgrade-token check (so a request lacking the token is told 426 + Upgrade: websocket, whatever else is
+		// wrong with it beyond the Connection header, which is examined first)
+		if failed != "connection-upgrade" && failed != "upgrade-websocket" {
+			upOK := false
+			for _, l := range p.Lits {
+				if u.guardOf(l.T) == "upgrade-websocket" && l.Pos {
+					upOK = true
+				}
+			}
+			if !upOK {
+				statusBad[failed] = fmt.Sprintf("a request is refused for '%s' (status %d) before its Upgrade header was examined: a request that also lacks the websocket token no longer gets 426 with an Upgrade header", failed, st)
+			}
+		}
 		switch failed {
 		case "origin":
 			if st != 403 {
